@@ -60,15 +60,18 @@ func setPlaceholderNames(n *ast.MsgNode) {
 			continue
 		}
 
+		// As in official Soy, a suffixed name is skipped when it is itself a
+		// base name.  The names then depend only on the set of base names, not
+		// on the order in which this loop visits them.
 		var nextSuffix = 1
 		for _, node := range nodes {
 			for {
 				var newName = baseName + "_" + strconv.Itoa(nextSuffix)
-				if _, ok := nameToRepNodes[newName]; !ok {
+				nextSuffix++
+				if _, ok := baseNameToRepNodes[newName]; !ok {
 					nameToRepNodes[newName] = node
 					break
 				}
-				nextSuffix++
 			}
 		}
 	}
